@@ -1,6 +1,7 @@
 package gobwas
 
 import (
+	"bytes"
 	"context"
 	"io"
 	"net"
@@ -20,16 +21,36 @@ type rwc struct {
 // WebSocketDial returns a Codec that wraps a client-side connection with JSON
 // encoding and decoding.
 func WebSocketDial(ctx context.Context, url string) (jsonrpc2.Codec, error) {
-	conn, _, _, err := ws.Dial(ctx, url)
+	conn, br, _, err := ws.Dial(ctx, url)
 	if err != nil {
 		return nil, err
 	}
 
-	return clientWebSocketCodec(conn), nil
+	// Frames that arrived together with the handshake response are in br,
+	// they have to be read before anything else from the connection.
+	var buffered io.Reader
+	if br != nil && br.Buffered() > 0 {
+		b, _ := br.Peek(br.Buffered())
+		buffered = bytes.NewReader(append([]byte(nil), b...))
+	}
+	if br != nil {
+		ws.PutReader(br)
+	}
+	return clientWebSocketCodecBuffered(conn, buffered), nil
 }
 
 func clientWebSocketCodec(conn net.Conn) jsonrpc2.Codec {
-	r := wsutil.NewReader(conn, ws.StateClientSide)
+	return clientWebSocketCodecBuffered(conn, nil)
+}
+
+// clientWebSocketCodecBuffered reads what is in buffered (if any) before it
+// reads from the connection.
+func clientWebSocketCodecBuffered(conn net.Conn, buffered io.Reader) jsonrpc2.Codec {
+	var in io.Reader = conn
+	if buffered != nil {
+		in = io.MultiReader(buffered, conn)
+	}
+	r := wsutil.NewReader(in, ws.StateClientSide)
 	w := wsutil.NewWriter(conn, ws.StateClientSide, ws.OpBinary)
 	return &wsCodec{
 		inner:      jsonrpc2.IOCodec(rwc{r, w, conn}),
